@@ -501,6 +501,9 @@ func (m *monState) checkStart(si *StepInfo, j *JobSnap, pre, post *Snap) {
 	d := time.Duration(a.Def.StartDelayMs) * time.Millisecond
 	if waited := post.At - a.At; waited < d {
 		run.violate("C07", "r1", "step %d (%s): job %s started %v after acceptance, start_delay is %v", si.N, si.Name, j.Name, waited, d)
+		if !m.defUnchangedSince(P, a.Step) {
+			run.violate("C16", "r5", "step %d (%s): job %s was accepted at step %d under a definition with start_delay %v, the definitions were replaced while it waited, and it started %v after acceptance", si.N, si.Name, j.Name, a.Step, d, waited)
+		}
 	}
 	if d > 0 {
 		run.probe("delayed_job_started")
